@@ -1,6 +1,277 @@
-(* TypingBasics.v — basic facts about the value model of Model/Typing.v. *)
+(* TypingBasics.v — induction principles and basic facts about the value model of Model/Typing.v:
+   Python equality [py_eq] is an equivalence, subclassing is a preorder. *)
 From PG Require Import Common.Tactics Model.Typing.
 Local Open Scope Z_scope.
 
+(* ------------------------------------------------------------------------------------------ *)
+(** * Induction principles for the nested types *)
+
+Section PvInd.
+  Variable P : pv -> Prop.
+  Hypothesis HNone : P PNone.
+  Hypothesis HMissing : P PMissing.
+  Hypothesis HBool : forall b, P (PBool b).
+  Hypothesis HInt : forall z, P (PInt z).
+  Hypothesis HFlt : forall q, P (PFlt q).
+  Hypothesis HStr : forall s, P (PStr s).
+  Hypothesis HList : forall l, Forall P l -> P (PList l).
+  Hypothesis HTuple : forall l, Forall P l -> P (PTuple l).
+  Hypothesis HDict : forall kvs, Forall (fun kv => P (snd kv)) kvs -> P (PDict kvs).
+  Hypothesis HObj : forall c i, P (PObj c i).
+
+  Fixpoint pv_ind' (v : pv) : P v :=
+    match v with
+    | PNone => HNone | PMissing => HMissing | PBool b => HBool b | PInt z => HInt z
+    | PFlt q => HFlt q | PStr s => HStr s
+    | PList l => HList l ((fix go (l : list pv) : Forall P l :=
+                             match l with [] => Forall_nil _ | x :: r => Forall_cons _ (pv_ind' x) (go r) end) l)
+    | PTuple l => HTuple l ((fix go (l : list pv) : Forall P l :=
+                             match l with [] => Forall_nil _ | x :: r => Forall_cons _ (pv_ind' x) (go r) end) l)
+    | PDict kvs => HDict kvs ((fix go (l : list (str * pv)) : Forall (fun kv => P (snd kv)) l :=
+                             match l with
+                             | [] => Forall_nil _
+                             | kv :: r => Forall_cons _ (pv_ind' (snd kv)) (go r)
+                             end) kvs)
+    | PObj c i => HObj c i
+    end.
+End PvInd.
+
+Section SpecInd.
+  Variable P : spec -> Prop.
+  Hypothesis HBool : forall m, P (SBool m).
+  Hypothesis HInt : forall lo hi m, P (SInt lo hi m).
+  Hypothesis HFloat : forall lo hi m, P (SFloat lo hi m).
+  Hypothesis HStr : forall m, P (SStr m).
+  Hypothesis HEnum : forall vs m, P (SEnum vs m).
+  Hypothesis HList : forall e mn mx m, P e -> P (SList e mn mx m).
+  Hypothesis HTuple : forall es mn mx m, Forall P es -> P (STuple es mn mx m).
+  Hypothesis HDictN : forall m, P (SDict None m).
+  Hypothesis HDict : forall fs m, Forall (fun kf => P (snd kf)) fs -> P (SDict (Some fs) m).
+  Hypothesis HObj : forall c m, P (SObj c m).
+  Hypothesis HUnion : forall cs m, Forall P cs -> P (SUnion cs m).
+  Hypothesis HAny : forall m, P (SAny m).
+
+  Fixpoint spec_ind' (s : spec) : P s :=
+    match s with
+    | SBool m => HBool m | SInt lo hi m => HInt lo hi m | SFloat lo hi m => HFloat lo hi m
+    | SStr m => HStr m | SEnum vs m => HEnum vs m
+    | SList e mn mx m => HList e mn mx m (spec_ind' e)
+    | STuple es mn mx m =>
+        HTuple es mn mx m ((fix go (l : list spec) : Forall P l :=
+                              match l with [] => Forall_nil _ | x :: r => Forall_cons _ (spec_ind' x) (go r) end) es)
+    | SDict None m => HDictN m
+    | SDict (Some fs) m =>
+        HDict fs m ((fix go (l : list (fkey * spec)) : Forall (fun kf => P (snd kf)) l :=
+                       match l with
+                       | [] => Forall_nil _
+                       | kf :: r => Forall_cons _ (spec_ind' (snd kf)) (go r)
+                       end) fs)
+    | SObj c m => HObj c m
+    | SUnion cs m =>
+        HUnion cs m ((fix go (l : list spec) : Forall P l :=
+                        match l with [] => Forall_nil _ | x :: r => Forall_cons _ (spec_ind' x) (go r) end) cs)
+    | SAny m => HAny m
+    end.
+End SpecInd.
+
+(* ------------------------------------------------------------------------------------------ *)
+(** * Strings and classes *)
+
 Lemma str_eqb_refl : forall s, str_eqb s s = true.
 Proof. induction s; simpl; auto. rewrite N.eqb_refl; auto. Qed.
+
+Lemma str_eqb_eq : forall a b, str_eqb a b = true <-> a = b.
+Proof.
+  induction a; destruct b; simpl; split; intros H; try congruence; auto.
+  - apply andb_true_iff in H as [H1 H2]. apply N.eqb_eq in H1. apply IHa in H2. congruence.
+  - inv H. rewrite N.eqb_refl. apply IHa. reflexivity.
+Qed.
+
+Lemma str_eqb_sym : forall a b, str_eqb a b = str_eqb b a.
+Proof.
+  intros. destruct (str_eqb a b) eqn:E.
+  - apply str_eqb_eq in E. subst. symmetry. apply str_eqb_refl.
+  - destruct (str_eqb b a) eqn:E'; auto. apply str_eqb_eq in E'. subst. rewrite str_eqb_refl in E. discriminate.
+Qed.
+
+Lemma is_subclass_refl : forall c, is_subclass c c = true.
+Proof. induction c; simpl; auto. rewrite N.eqb_refl. auto. Qed.
+
+Lemma is_subclass_trans : forall c d e, is_subclass c d = true -> is_subclass d e = true -> is_subclass c e = true.
+Proof.
+  intros c d e. revert c d. induction e; intros c d H1 H2; simpl; auto.
+  - destruct c; auto.
+  - destruct d; simpl in H2; try discriminate.
+    destruct c; simpl in H1; try discriminate.
+    apply andb_true_iff in H1 as [A B]. apply andb_true_iff in H2 as [C D].
+    apply N.eqb_eq in A. apply N.eqb_eq in C. subst. simpl. rewrite N.eqb_refl. simpl. eauto.
+Qed.
+
+(* ------------------------------------------------------------------------------------------ *)
+(** * Python equality *)
+
+Definition list_eqb (f : pv -> pv -> bool) : list pv -> list pv -> bool :=
+  fix go (xs ys : list pv) : bool :=
+    match xs, ys with
+    | [], [] => true
+    | x :: xs', y :: ys' => f x y && go xs' ys'
+    | _, _ => false
+    end.
+Definition dict_has (f : pv -> pv -> bool) (k : str) (v : pv) (ys : list (str * pv)) : bool :=
+  existsb (fun kw => str_eqb k (fst kw) && f v (snd kw)) ys.
+Definition dict_incl (f : pv -> pv -> bool) (xs ys : list (str * pv)) : bool :=
+  forallb (fun kv => dict_has f (fst kv) (snd kv) ys) xs.
+Definition dict_incl_rev (f : pv -> pv -> bool) (xs ys : list (str * pv)) : bool :=
+  forallb (fun kw => existsb (fun kv => str_eqb (fst kv) (fst kw) && f (snd kv) (snd kw)) xs) ys.
+
+Lemma py_eq_list : forall xs ys, py_eq (PList xs) (PList ys) = list_eqb py_eq xs ys.
+Proof. induction xs; destruct ys; simpl in *; auto; rewrite <- IHxs; reflexivity. Qed.
+Lemma py_eq_tuple : forall xs ys, py_eq (PTuple xs) (PTuple ys) = list_eqb py_eq xs ys.
+Proof. induction xs; destruct ys; simpl in *; auto; rewrite <- IHxs; reflexivity. Qed.
+
+Lemma py_eq_dict : forall xs ys,
+  py_eq (PDict xs) (PDict ys) = dict_incl py_eq xs ys && dict_incl_rev py_eq xs ys.
+Proof.
+  intros. simpl. f_equal.
+  - induction xs as [|[k v] r IH]; simpl; auto. rewrite IH. f_equal.
+    clear IH. unfold dict_has. induction ys as [|[k' w] r' IH']; simpl; auto. rewrite IH'. reflexivity.
+  - induction ys as [|[k' w] r' IH]; simpl; auto. rewrite IH. f_equal.
+    clear IH. induction xs as [|[k v] r IH']; simpl; auto. rewrite IH'. reflexivity.
+Qed.
+
+Lemma num_of_some_kind : forall v x, num_of v = Some x ->
+  (exists b, v = PBool b) \/ (exists z, v = PInt z) \/ (exists q, v = PFlt q).
+Proof. destruct v; simpl; intros; try discriminate; eauto. Qed.
+
+Lemma py_eq_num : forall a b x y, num_of a = Some x -> num_of b = Some y -> py_eq a b = Z.eqb x y.
+Proof. intros. destruct a; simpl in H; try discriminate; simpl; rewrite H0; inv H; reflexivity. Qed.
+
+Lemma py_eq_num_l : forall a b x, num_of a = Some x -> num_of b = None -> py_eq a b = false.
+Proof. intros. destruct a; simpl in H; try discriminate; simpl; rewrite H0; reflexivity. Qed.
+
+Lemma py_eq_num_r : forall a b y, num_of a = None -> num_of b = Some y -> py_eq a b = false.
+Proof. intros. destruct a; simpl in H; try discriminate; simpl; rewrite H0; reflexivity. Qed.
+
+Lemma list_eqb_refl : forall l, Forall (fun x => py_eq x x = true) l -> list_eqb py_eq l l = true.
+Proof. induction 1; simpl; auto. rewrite H, IHForall. reflexivity. Qed.
+
+Lemma dict_incl_refl_aux : forall kvs, Forall (fun kv => py_eq (snd kv) (snd kv) = true) kvs ->
+  forall ys, incl kvs ys -> dict_incl py_eq kvs ys = true.
+Proof.
+  induction 1; intros ys Hi; simpl; auto.
+  rewrite IHForall by (intros z Hz; apply Hi; right; exact Hz). rewrite andb_true_r.
+  unfold dict_has. apply existsb_exists. exists x. split. apply Hi; left; reflexivity.
+  destruct x; simpl in *. rewrite str_eqb_refl, H. reflexivity.
+Qed.
+Lemma dict_incl_rev_refl_aux : forall kvs, Forall (fun kv => py_eq (snd kv) (snd kv) = true) kvs ->
+  forall xs, incl kvs xs -> dict_incl_rev py_eq xs kvs = true.
+Proof.
+  induction 1; intros xs Hi; simpl; auto.
+  rewrite IHForall by (intros z Hz; apply Hi; right; exact Hz). rewrite andb_true_r.
+  apply existsb_exists. exists x. split. apply Hi; left; reflexivity.
+  destruct x; simpl in *. rewrite str_eqb_refl, H. reflexivity.
+Qed.
+
+Lemma py_eq_refl : forall v, py_eq v v = true.
+Proof.
+  induction v using pv_ind'; try reflexivity.
+  - destruct b; reflexivity.
+  - simpl. apply Z.eqb_refl.
+  - simpl. apply Z.eqb_refl.
+  - simpl. apply str_eqb_refl.
+  - rewrite py_eq_list. apply list_eqb_refl. assumption.
+  - rewrite py_eq_tuple. apply list_eqb_refl. assumption.
+  - rewrite py_eq_dict, dict_incl_refl_aux, dict_incl_rev_refl_aux; auto using incl_refl.
+  - simpl. rewrite str_eqb_refl, N.eqb_refl. reflexivity.
+Qed.
+
+(* what py_eq a b = true says about b, by the shape of a *)
+Lemma py_eq_shape : forall a b, py_eq a b = true ->
+  match a with
+  | PNone => b = PNone
+  | PMissing => b = PMissing
+  | PBool _ | PInt _ | PFlt _ => num_of b = num_of a
+  | PStr s => b = PStr s
+  | PList xs => exists ys, b = PList ys /\ list_eqb py_eq xs ys = true
+  | PTuple xs => exists ys, b = PTuple ys /\ list_eqb py_eq xs ys = true
+  | PDict xs => exists ys, b = PDict ys /\ dict_incl py_eq xs ys = true /\ dict_incl_rev py_eq xs ys = true
+  | PObj c i => b = PObj c i
+  end.
+Proof.
+  intros a b H.
+  destruct a.
+  - destruct b; simpl in H; try discriminate; reflexivity.
+  - destruct b; simpl in H; try discriminate; reflexivity.
+  - destruct b0; simpl in H; try discriminate; simpl; f_equal;
+      repeat match goal with b : bool |- _ => destruct b end; lia.
+  - destruct b; simpl in H; try discriminate; simpl; f_equal;
+      repeat match goal with b : bool |- _ => destruct b end; lia.
+  - destruct b; simpl in H; try discriminate; simpl; f_equal;
+      repeat match goal with b : bool |- _ => destruct b end; lia.
+  - destruct b; simpl in H; try discriminate. apply str_eqb_eq in H. subst. reflexivity.
+  - destruct b; try (simpl in H; discriminate). rewrite py_eq_list in H. eauto.
+  - destruct b; try (simpl in H; discriminate). rewrite py_eq_tuple in H. eauto.
+  - destruct b; try (simpl in H; discriminate). rewrite py_eq_dict in H.
+    apply andb_true_iff in H. eauto.
+  - destruct b; simpl in H; try discriminate. apply andb_true_iff in H as [A B].
+    apply str_eqb_eq in A. apply N.eqb_eq in B. subst. reflexivity.
+Qed.
+
+Lemma list_eqb_trans : forall xs ys zs,
+  Forall (fun x => forall b c, py_eq x b = true -> py_eq b c = true -> py_eq x c = true) xs ->
+  list_eqb py_eq xs ys = true -> list_eqb py_eq ys zs = true -> list_eqb py_eq xs zs = true.
+Proof.
+  induction xs; destruct ys; destruct zs; simpl; intros F H1 H2; try discriminate; auto.
+  inv F. apply andb_true_iff in H1 as [A B]. apply andb_true_iff in H2 as [C D].
+  rewrite (H3 _ _ A C). simpl. eauto.
+Qed.
+
+Lemma dict_incl_trans : forall xs ys zs,
+  Forall (fun kv => forall b c, py_eq (snd kv) b = true -> py_eq b c = true -> py_eq (snd kv) c = true) xs ->
+  dict_incl py_eq xs ys = true -> dict_incl py_eq ys zs = true -> dict_incl py_eq xs zs = true.
+Proof.
+  unfold dict_incl. intros xs ys zs F H1 H2. rewrite forallb_forall in *. rewrite Forall_forall in F.
+  intros [k v] Hin. specialize (H1 _ Hin). simpl in H1. unfold dict_has in *.
+  apply existsb_exists in H1 as [[k' w] [Hin' E]]. simpl in E. apply andb_true_iff in E as [E1 E2].
+  specialize (H2 _ Hin'). simpl in H2. apply existsb_exists in H2 as [[k'' u] [Hin'' E']]. simpl in E'.
+  apply andb_true_iff in E' as [E3 E4].
+  apply existsb_exists. exists (k'', u). split; auto. simpl.
+  apply str_eqb_eq in E1. apply str_eqb_eq in E3. subst. rewrite str_eqb_refl. simpl.
+  apply (F _ Hin _ _ E2 E4).
+Qed.
+
+(* the reverse inclusion needs transitivity at the elements of the middle dict; we get it from
+   the first dict through the forward inclusion, see py_eq_trans *)
+Lemma py_eq_trans : forall a b c, py_eq a b = true -> py_eq b c = true -> py_eq a c = true.
+Proof.
+  induction a using pv_ind'; intros b c H1 H2; pose proof (py_eq_shape _ _ H1) as S1; simpl in S1.
+  - subst. exact H2.
+  - subst. exact H2.
+  - destruct (num_of_some_kind b0 _ S1) as [[x E]|[[x E]|[x E]]]; subst b0;
+      pose proof (py_eq_shape _ _ H2) as S2; simpl in S2, S1;
+      erewrite py_eq_num; [apply Z.eqb_refl| reflexivity | rewrite S2; exact S1 ].
+  - destruct (num_of_some_kind b _ S1) as [[x E]|[[x E]|[x E]]]; subst b;
+      pose proof (py_eq_shape _ _ H2) as S2; simpl in S2, S1;
+      erewrite py_eq_num; [apply Z.eqb_refl| reflexivity | rewrite S2; exact S1 ].
+  - destruct (num_of_some_kind b _ S1) as [[x E]|[[x E]|[x E]]]; subst b;
+      pose proof (py_eq_shape _ _ H2) as S2; simpl in S2, S1;
+      erewrite py_eq_num; [apply Z.eqb_refl| reflexivity | rewrite S2; exact S1 ].
+  - subst. exact H2.
+  - destruct S1 as [ys [E L1]]. subst. pose proof (py_eq_shape _ _ H2) as S2. simpl in S2.
+    destruct S2 as [zs [E L2]]. subst. rewrite py_eq_list. eapply list_eqb_trans; eauto.
+  - destruct S1 as [ys [E L1]]. subst. pose proof (py_eq_shape _ _ H2) as S2. simpl in S2.
+    destruct S2 as [zs [E L2]]. subst. rewrite py_eq_tuple. eapply list_eqb_trans; eauto.
+  - destruct S1 as [ys [E [L1 R1]]]. subst. pose proof (py_eq_shape _ _ H2) as S2. simpl in S2.
+    destruct S2 as [zs [E [L2 R2]]]. subst. rewrite py_eq_dict.
+    rewrite (dict_incl_trans _ _ _ H L1 L2). simpl.
+    (* reverse: every entry of zs has a partner in ys, that one a partner in kvs *)
+    unfold dict_incl_rev in *. rewrite forallb_forall in *. rewrite Forall_forall in H.
+    intros [k'' u] Hin''. specialize (R2 _ Hin''). simpl in R2.
+    apply existsb_exists in R2 as [[k' w] [Hin' E]]. simpl in E. apply andb_true_iff in E as [E1 E2].
+    specialize (R1 _ Hin'). simpl in R1.
+    apply existsb_exists in R1 as [[k v] [Hin E']]. simpl in E'. apply andb_true_iff in E' as [E3 E4].
+    apply existsb_exists. exists (k, v). split; auto. simpl.
+    apply str_eqb_eq in E1. apply str_eqb_eq in E3. subst. rewrite str_eqb_refl. simpl.
+    apply (H _ Hin _ _ E4 E2).
+  - subst. exact H2.
+Qed.
